@@ -7,8 +7,9 @@ from gen import gen_untyped
 from props._semprop import fill
 from sem import run_semantic
 
-MODULE = "Proofs.Props.C01"
-THEOREMS = ["Facto.Circuit.evalEnt_local", "Facto.scalar_end_to_end", "Facto.read_isolated"]
+MODULE = "Proofs.Props.C13"
+THEOREMS = ["Facto.Circuit.evalEnt_local", "Facto.scalar_end_to_end", "Facto.read_isolated",
+            "Facto.evalNode_setTy", "Facto.retype_rel", "Facto.retype_nodeVal", "Facto.retype_bundle"]
 WILD = {"signal-each", "signal-anything", "signal-everything"}
 
 
@@ -22,6 +23,15 @@ def run(res, tier):
     base = seed() * 100003
     sources = [gen_untyped(base + i) for i in range(n)]
     recs, infos, stats = run_semantic(res, sources, count=16 if tier == "quick" else 80)
+    for i in infos:
+        v = i.get("verdict") or {}
+        if v.get("n_implicit"):
+            stats["programs_with_untyped"] += 1
+            if v.get("retype_ok"):
+                stats["retype_theorem_applies"] += 1
+    res.coverage["retype_note"] = ("retype_theorem_applies: programs for which Facto.retypeCheck accepts the Core program with the compiler's signal "
+                                   "names substituted for the abstract implicit types, so that Facto.retype_nodeVal applies: the source value of every "
+                                   "node is independent of that choice, for all inputs")
     for r in recs:
         if r.get("outcome") != "ok":
             continue
